@@ -198,21 +198,27 @@ func LockedAcross(c *Ctx, rule string, fn *ssa.Function, sel func(ssa.CallInstru
 	held := MustHeld(fn, nil)
 	deferred := DeferredUnlocks(fn)
 	n := 0
-	for _, cl := range Calls(fn) {
+	heldIn := map[*ssa.Function]map[ssa.Instruction]LockSet{fn: held}
+	for _, cl := range CallsDeep(fn) {
 		if !sel(cl) {
 			continue
 		}
 		if _, isDefer := cl.(*ssa.Defer); isDefer {
 			continue
 		}
+		g := cl.Parent()
+		if heldIn[g] == nil {
+			// the call sits in a helper of fn: its lockset includes what every caller of the helper holds
+			heldIn[g] = MustHeldCtx(g)
+		}
 		n++
 		ok := false
-		for m, k := range held[cl] {
+		for m, k := range heldIn[g][cl] {
 			if strings.HasSuffix(m, mutexSuffix) && k == 1 {
 				ok = true
 			}
 		}
-		c.Check(ok, rule, name, "held@"+FuncName(CalleeFunc(cl)), cl.Pos(), "inner call %s executes with lockset %s on every path (needs write lock on *.%s)", FuncName(CalleeFunc(cl)), held[cl], mutexSuffix)
+		c.Check(ok, rule, name, "held@"+FuncName(CalleeFunc(cl)), cl.Pos(), "inner call %s executes with lockset %s on every path (needs write lock on *.%s)", FuncName(CalleeFunc(cl)), heldIn[g][cl], mutexSuffix)
 	}
 	if n == 0 {
 		c.Bad(rule, name, "inner-call", fn.Pos(), "no inner call found to protect")
